@@ -460,4 +460,125 @@ def classSrcOk (X : Ora) (c : ClassSrc) : Bool :=
   identOk X c.name.toList && descOk c.desc && classSchemaOk X c.schema
 
 
+/-! ### bracket nesting, read off the expression trees -/
+
+mutual
+/-- bracket nesting of a printed expression -/
+def edepth : PyExpr → Nat
+  | .call _ kws => 1 + kwsDepth kws
+  | .list xs => 1 + listDepth xs
+  | .dict kvs => 1 + kvsDepth kvs
+  | .lam b => edepth b
+  | .name _ => 0
+  | .const _ => 0
+  | .num _ => 0
+  | .negNum _ => 0
+  | .strLit _ => 0
+  | .bad => 0
+termination_by structural e => e
+def listDepth : List PyExpr → Nat
+  | [] => 0
+  | x :: xs => max (edepth x) (listDepth xs)
+termination_by structural xs => xs
+def kwsDepth : List (List Char × PyExpr) → Nat
+  | [] => 0
+  | (_, v) :: r => max (edepth v) (kwsDepth r)
+termination_by structural kws => kws
+def kvsDepth : List (PyExpr × PyExpr) → Nat
+  | [] => 0
+  | (k, v) :: r => max (edepth k) (max (edepth v) (kvsDepth r))
+termination_by structural kvs => kvs
+end
+
+
+def itemDepth : Item → Nat
+  | .ann _ e => edepth e
+  | .assign _ e => edepth e
+  | _ => 0
+
+def itemsDepth : List Item → Nat
+  | [] => 0
+  | it :: r => max (itemDepth it) (itemsDepth r)
+
+
+/-- bracket nesting of a class statement: the header's parenthesis, then the body -/
+def classDepth (O : EOra) (c : ClassSrc) : Nat := max 1 (itemsDepth (classItems O c.desc c.schema))
+
+def modDepth (O : EOra) : List ClassSrc → Nat
+  | [] => 0
+  | c :: r => max (classDepth O c) (modDepth O r)
+
+
+/-- the bracket nesting of the emitted module, read off the expression trees: within CPython's limit -/
+def depthOk (O : EOra) (defs : List ClassSrc) (main : ClassSrc) : Bool :=
+  decide (modDepth O (defs ++ [main]) ≤ maxLevel)
+
+
+/-! ### nesting of the schema (an upper bound of the nesting of the printed trees) -/
+
+mutual
+/-- list / dict nesting of a JSON value -/
+def vdepth : PyVal → Nat
+  | .list xs => 1 + vdepthL xs
+  | .dict kvs => 1 + vdepthKV kvs
+  | _ => 0
+termination_by structural v => v
+def vdepthL : List PyVal → Nat
+  | [] => 0
+  | x :: xs => max (vdepth x) (vdepthL xs)
+termination_by structural xs => xs
+def vdepthKV : List (PyVal × PyVal) → Nat
+  | [] => 0
+  | (k, v) :: r => max (vdepth k) (max (vdepth v) (vdepthKV r))
+termination_by structural kvs => kvs
+end
+
+def ddepth : Option PyVal → Nat
+  | none => 0
+  | some v => vdepth v
+
+mutual
+/-- an upper bound of the bracket nesting of the expression printed for a schema with default `d` -/
+def sdepth : Schema → Option PyVal → Nat
+  | .ref _, _ => 0
+  | .enum vs, d => 1 + max (1 + vdepthL vs) (ddepth d)
+  | .arrOf s _, d => 1 + max (sdepth s none) (ddepth d)
+  | .arrPos ss _ _, d => 1 + max (1 + sdepthL ss) (ddepth d)
+  | .mapOf v _ _, d => 1 + max (1 + max 1 (sdepth v none)) (ddepth d)
+  | .obj props defaults _ _, d => 1 + max 1 (max (sdepthP defaults props) (ddepth d))
+  | .allOf ss, d => 1 + max (1 + sdepthL ss) (ddepth d)
+  | .anyOf ss, d => 1 + max (1 + sdepthL ss) (ddepth d)
+  | .oneOf ss, d => 1 + max (1 + sdepthL ss) (ddepth d)
+  | .notS ss, d => 1 + max (1 + sdepthL ss) (ddepth d)
+  | .unsupported _, _ => 0
+  | .num _ _ _ _ _, d => 1 + ddepth d
+  | .str _ _ _, d => 1 + ddepth d
+  | .bool, d => 1 + ddepth d
+  | .arrAny _, d => 1 + ddepth d
+  | .mapAny _ _ _, d => 1 + ddepth d
+termination_by structural s => s
+def sdepthL : List Schema → Nat
+  | [] => 0
+  | s :: ss => max (sdepth s none) (sdepthL ss)
+termination_by structural ss => ss
+def sdepthP (defaults : List (String × PyVal)) : List (String × Schema) → Nat
+  | [] => 0
+  | (n, s) :: ps => max (sdepth s (lookup n defaults)) (sdepthP defaults ps)
+termination_by structural ps => ps
+end
+
+
+/-- an upper bound of the bracket nesting of the class statement printed for a (top-level) schema -/
+def classNest (c : ClassSrc) : Nat :=
+  match c.schema with
+  | .obj props defaults _ _ => max 1 (sdepthP defaults props)
+  | .mapAny _ _ _ => 1
+  | .mapOf _ _ _ => 1
+  | s => max 1 (sdepth s none)
+
+/-- the schemas nest shallowly enough for CPython's 200-bracket limit -/
+def schemaDepthOk (defs : List ClassSrc) (main : ClassSrc) : Bool :=
+  (defs ++ [main]).all (fun c => decide (classNest c ≤ maxLevel))
+
+
 end Typedpy.Emit
